@@ -33,7 +33,8 @@ PInit == pobjs = << >>
 PLive == DOMAIN pobjs
 
 Fresh == [init |-> FALSE, data |-> <<>>, nc |-> 0, nseg |-> 0, fixed |-> 0, ver |-> 0,
-          dcReady |-> FALSE, dcVer |-> <<>>, dcNc |-> 0, ftReady |-> FALSE, ftNc |-> 0, stale |-> FALSE]
+          dcReady |-> FALSE, dcVer |-> <<>>, dcNc |-> 0, ftReady |-> FALSE, ftNc |-> 0, stale |-> FALSE,
+          shares |-> {}]      \* ids of OTHER live objects whose caches are the same storage as this one's (design rule: none, ever)
 
 \* accepted iff >= 2 breakpoints, rows = segments * nc, and (fixed order: 0 < nc <= order)
 Accepts(fixed, nbp, rows, nc) ==
@@ -95,5 +96,8 @@ CacheCoherent == \A i \in PLive : LET o == pobjs[i] IN
                     /\ (o.ftReady => o.ftNc = o.nc)
 NeverStale == \A i \in PLive : ~pobjs[i].stale
 RejectedIsEmpty == \A i \in PLive : ~pobjs[i].init => pobjs[i].nseg = 0 /\ pobjs[i].nc = 0 /\ pobjs[i].data = <<>>
-PObjInv == CacheCoherent /\ NeverStale /\ RejectedIsEmpty
+\* caches are private: a copy takes the VALUE of its source's caches, never the storage (a write through one object must not be
+\* visible through another)
+NoSharedCache == \A i \in PLive : pobjs[i].shares = {}
+PObjInv == CacheCoherent /\ NeverStale /\ RejectedIsEmpty /\ NoSharedCache
 =============================================================================
